@@ -92,6 +92,7 @@ func (cdb *CachedDatabase) CleanupExpiredCache() map[string]int {
 func (cdb *CachedDatabase) UpdateDatabase(commands []Command) {
 	cdb.Database.Commands = commands
 	cdb.Database.BuildUniversalIndex() // Rebuild universal index
+	cdb.Database.buildTFIDFSearcher()  // and the re-ranker with its command map, which describe the old list
 	cdb.InvalidateCache()              // Invalidate cache when database is updated
 }
 
